@@ -41,11 +41,11 @@ class Connectives(Harness):
     doc = 'AND / OR / XOR over k arguments (flat, or the first two inside an array literal) of logicals, integers, ' \
           'floats and blanks = conjunction / disjunction / parity of truth values; an error argument yields an error'
     functions = ('logic.AND', 'logic.OR', 'logic.XOR', 'utils.iflatten', 'grammarparser.parser.p_array')
-    bounds = 'k <= 3 arguments (quick) / 4 (thorough); every tag combination; integer and float values unbounded; one ' \
+    bounds = 'k <= 3 arguments (quick) / 6 (thorough); every tag combination; integer and float values unbounded; one ' \
              'argument may be any of the 8 error values'
 
     def cases(self, tier):
-        ks = (1, 2, 3) if tier == 'quick' else (1, 2, 3, 4)
+        ks = (1, 2, 3) if tier == 'quick' else (1, 2, 3, 4, 5, 6)
         out = []
         for fn in ('AND', 'OR', 'XOR'):
             for k in ks:
@@ -60,7 +60,7 @@ class Connectives(Harness):
         return {}
 
     def formula(self, p):
-        names = ['v%s' % 'abcd'[i] for i in range(p['k'])]
+        names = ['v%s' % 'abcdef'[i] for i in range(p['k'])]
         if p['nested']:
             return '%s({%s,%s}%s)' % (p['fn'], names[0], names[1], ''.join(',' + n for n in names[2:]))
         return '%s(%s)' % (p['fn'], ','.join(names))
@@ -71,7 +71,7 @@ class Connectives(Harness):
         for i in range(p['k']):
             tags = ERR8 if i == p['err'] else TRUTH_TAGS
             tag, v = pick_tagged(env, e, inp, 'a%d' % i, tags, 'x%d' % i)
-            vals['v%s' % 'abcd'[i]] = v
+            vals['v%s' % 'abcdef'[i]] = v
         return self.parse_with(env, self.formula(p), vals)
 
     def post(self, env, inp, out, p):
